@@ -70,6 +70,11 @@ Definition run_inputs (e : sexp) : sexp :=
             L [res_to_sexp (validate FUEL E a j'); sB (accepts FUEL E a j')]
         | _, _ => sErr "validate args"
         end)
+  | L [A "rename"; sch; sn; t; j] =>
+      match schema_of_sexp sch, dB sn, gtype_of_sexp t, json_of_sexp j with
+      | Some s, Some snake, Some t', Some j' => json_to_sexp (rename FUEL s snake t' j')
+      | _, _, _, _ => sErr "rename args"
+      end
   | L [A "field_defaults"; sch; cu; sn; A ty] =>
       with_ctx sch cu sn (fun s cs snake =>
         let E := env_of s cs snake in
